@@ -119,6 +119,29 @@ func Make(shape string, seed int64, n int) []byte {
 			copy(d[pp+2:], a)
 			b = append(b, d...)
 			filler()
+		case "taildmg":
+			// valid multi-byte text whose v-th byte from the end is the lead byte of a 3-byte character followed by a byte that is
+			// not a continuation byte (the last few bytes of a block are where a cut character may legitimately sit)
+			for len(b) < n {
+				b = append(b, []byte("h\u00e9llo w\u00f6rld \u03b5\u03bb\u03bb\u03b7\u03bd\u03b9\u03ba\u03ac \u0440\u0443\u0441\u0441\u043a\u0438\u0439 \u65e5\u672c\u8a9e ")...)
+			}
+			for len(b)%1 != 0 {
+				b = append(b, 'a')
+			}
+			b = b[:n]
+			// (cutting may have split a character: overwrite the tail with ASCII)
+			for k := n - v - 16; k < n && k >= 0; k++ {
+				b[k] = 'a'
+			}
+			if v >= 1 && v <= n {
+				b[n-v] = 0xE1
+				if v >= 2 {
+					b[n-v+1] = 0x41
+				}
+				if v >= 3 {
+					b[n-v+2] = 0x80
+				}
+			}
 		case "contlead":
 			// valid wide UTF-8 text behind v stray continuation bytes: a block cut inside a character starts with up to three of
 			// them, v >= 4 is what a damaged or mis-cut stream looks like
